@@ -150,9 +150,10 @@ class IrGenerator:
         except AttributeError:
             pass
 
-        result = self._apply_impl(inp, open_blocks)
-
-        ir.Statement._current_frame = prev_frame
+        try:
+            result = self._apply_impl(inp, open_blocks)
+        finally:
+            ir.Statement._current_frame = prev_frame
 
         return result
 
@@ -562,7 +563,15 @@ class IrGenerator:
 
             ctx = ir.StatemachineContext.enter(inp._name)
 
-            statemachine_end = self.apply(inp._body, open_blocks=[ctx.first_block()])
+            try:
+                statemachine_end = self.apply(
+                    inp._body, open_blocks=[ctx.first_block()]
+                )
+            except BaseException:
+                # do not leave an active context behind,
+                # it would break all following compilations
+                ir.StatemachineContext._singleton = None
+                raise
 
             parent_block.append(ir.StatemachineContext.finish(statemachine_end))
 
